@@ -18,7 +18,7 @@ ANCHORS = ['pycaption:detect_format', 'pycaption.srt:SRTReader.detect', 'pycapti
 THOROUGH_SCALE = 5        # random budgets of the thorough tier are multiplied by this
 REQUIRE = {'strings_checked': 2000, 'detected_DFXPReader': 5, 'detected_MicroDVDReader': 5,
            'detected_WebVTTReader': 5, 'detected_SAMIReader': 5, 'detected_SRTReader': 5,
-           'detected_SCCReader': 5, 'detected_None': 5, 'writer_outputs_read_back': 50,
+           'detected_SCCReader': 5, 'detected_None': 5, 'writer_outputs_read_back': 50, 'writer_outputs_under_a_language_option': 30,
            'one_line_digit_inputs': 3}
 
 ORDER = ['DFXPReader', 'MicroDVDReader', 'WebVTTReader', 'SAMIReader', 'SRTReader', 'SCCReader']
@@ -161,8 +161,16 @@ def cases(ctx):
         idx += 1
     for i in range(ctx.budget(800, 30000)):
         w = rng.choice(WRITERS)
-        yield {'kind': 'writer', 'writer': w, 'set': gen_set(rng, f'D{ctx.shard}.{i}', scc=(w == 'SCCWriter')),
-               'prefixes': rng.random() < 0.3}
+        case = {'kind': 'writer', 'writer': w, 'set': gen_set(rng, f'D{ctx.shard}.{i}', scc=(w == 'SCCWriter')),
+                'prefixes': rng.random() < 0.3}
+        langs = case['set']['langs']
+        if all(l['captions'] for l in langs) and rng.random() < 0.3:
+            # the language options: a language of the set, or one it does not have (the writers then fall back)
+            if w in ('DFXPWriter', 'SinglePositioningDFXPWriter', 'LegacyDFXPWriter'):
+                case['write_kwargs'] = {'force': rng.choice(['zz', 'zz', langs[0]['lang'], langs[-1]['lang']])}
+            elif w == 'WebVTTWriter':
+                case['write_kwargs'] = {'lang': rng.choice([langs[0]['lang'], langs[-1]['lang']])}
+        yield case
 
 
 def nontrivial(case):
@@ -257,7 +265,9 @@ def check(case, ctx):
         # these two join all languages of a set into one document: keep the single written language
         case = dict(case, set=dict(case['set'], langs=case['set']['langs'][:1]))
         cs = dump.mk_caption_set(case['set'])
-    out = W().write(cs)
+    if case.get('write_kwargs'):
+        ctx.count('writer_outputs_under_a_language_option')
+    out = W().write(cs, **(case.get('write_kwargs') or {}))
     got = _check_string(out, ctx, fails, expect=READER_OF[wname])
     if got is not None and got.__name__ == READER_OF[wname]:
         try:
